@@ -215,6 +215,9 @@ func (r *Runner) replayLine(l *Line) lineResult {
 	if r.cfg.Fam == "lockrun" && l.Fam == "partial" {
 		return r.replayLockCase(l)
 	}
+	if r.cfg.Fam == "lift" && l.Fam == "core" {
+		return r.replayLift(l)
+	}
 	switch l.Fam {
 	case "core":
 		return r.replayCore(l)
@@ -329,7 +332,7 @@ func (r *Runner) writeReplay(prop string, f *Fail, l *Line) string {
 	h.Write([]byte(l.raw))
 	h.Write([]byte(f.Inst + f.Cat))
 	fam := l.Fam
-	if r.cfg.Fam == "sched" || r.cfg.Fam == "lockrun" {
+	if r.cfg.Fam == "sched" || r.cfg.Fam == "lockrun" || r.cfg.Fam == "lift" {
 		fam = r.cfg.Fam
 	}
 	path := filepath.Join(r.cfg.OutDir, fmt.Sprintf("%s-%s-%016x.json", prop, fam, h.Sum64()))
